@@ -26,7 +26,7 @@ def eval_program(arg) -> dict:
     seed, stream, scratch, tier = arg
     common.import_dznpy()
     prog, case, _rng = progrun.make_program(PROP, seed, stream, scratch, stream % 4 == 2,
-                                            mc_shape=stream // 4)
+                                            mc_shape=stream // 4, big=stream % 8 in (3, 4))
     # alternate the origin deterministically so that both are covered in every run
     # (odd streams run in a child interpreter with other surroundings - vlib.surroundings)
     prog.enc['origin'] = 'create' if stream % 4 in (0, 1) else 'import'
@@ -90,7 +90,7 @@ def main(tier: str) -> int:
         raise common.Inconclusive('g++ / clang++-14 not available')
     run = common.Run(PROP, tier)
     n = 8 if tier == 'quick' else 152
-    run.require('constructions', 'constructed', 'refused', 'identity_comparisons', 'origin_create',
+    run.require('programs_of_big_size', 'constructions', 'constructed', 'refused', 'identity_comparisons', 'origin_create',
                 'origin_import', 'posts_seen', 'programs_built_as_release',
                 'programs_built_as_development', 'programs_with_a_port_named_like_a_shell_part')
     scratch = run.scratch()
